@@ -92,7 +92,7 @@ static void rand_hash(uint8_t *out, size_t out_len, uint8_t *in,
 static int rand_inc(uint8_t *data, size_t size, int digit) {
 	int carry = digit;
 	for (int i = size - 1; i >= 0; i--) {
-		int16_t s;
+		int s;
 		s = (data[i] + carry);
 		data[i] = s & 0xFF;
 		carry = s >> 8;
